@@ -18,14 +18,19 @@ ASSUMPTIONS = ['the expected structure is computed from the abstract document by
                'documents are generated unambiguous (follow conditions enforced by the layout: a control word is not followed '
                'by a letter; text never contains active characters)']
 PARTIAL = ['C02_parse_unparse_partial / C02_items_simulation_partial / C02_whitespace_irrelevant_partial / '
-           'C02_tree_whitespace_irrelevant_partial: proved for the CORE sub-grammar of coq/Doc/DocGrammar.v (stages a-d): '
+           'C02_tree_whitespace_irrelevant_partial: proved for the CORE sub-grammar of coq/Doc/DocGrammar.v (stages a-d, e2): '
            'text runs of inert characters, non-paragraph whitespace before every item / closing delimiter / end of input, '
            'nested braced groups, macro calls (control words with post-space, control symbols) whose signature is made only '
            'of mandatory brace arguments written as braced groups directly after the name (any math-mode delta), inline math '
-           '$..$ and \\(..\\), display math \\[..\\] outside math mode, comments (% text newline whitespace), paragraph breaks (whitespace run with >= 2 newlines ending with its last newline, context with the \\n\\n specials); all documents of that grammar, all contexts. '
-           'NOT covered by the theorem (only by the differential correspondence and the structure oracle): a paragraph '
-           'break followed by indentation or directly after a control word / comment, a comment ending at the end of input, optional star / bracket arguments, single-token arguments, whitespace or comments before an argument, '
-           'environments, specials, $$..$$, verbatim']
+           '$..$ and \\(..\\), display math \\[..\\] and $$..$$ outside math mode, comments (% text newline whitespace), '
+           'paragraph breaks (whitespace run with >= 2 newlines ending with its last newline, context with the \\n\\n '
+           'specials); all documents of that grammar, all contexts.',
+           'C02_parse_unparse2_partial / C02_items_simulation2_partial / C02_whitespace_irrelevant2_partial / '
+           'C02_tree_whitespace_irrelevant2_partial: the same for the EXTENDED grammar of coq/Doc/DocGrammar2.v = the core '
+           'grammar plus (e1) environments \\begin{name} args body \\end{name} (known to the context or covered by its '
+           'unknown-environment fallback, mandatory brace arguments, body in math mode when declared so, whitespace allowed '
+           'between \\begin / \\end and the brace). '
+           'NOT covered by any theorem (only by the differential correspondence and the structure oracle): ' + """a paragraph break followed by indentation or written directly after a control word / comment, a comment ending at the end of input, optional star / bracket arguments, single-token arguments, whitespace or comments before an argument, specials other than the paragraph break, verbatim (\\verb, verbatim environments, verbatim argument kind)"""]
 REFUTED = []
 CASE_TIMEOUT = 10.0
 case_from_desc = None
